@@ -35,22 +35,25 @@ class ExternalStateAdapter(metaclass=ABCMeta):
         return self._save_instance(state)
 
     def load_state(self) -> list[InstanceState]:
-        # an instance whose stored state cannot be read is skipped, the others are still restored
-        state = [cur_state for cur_state in self._load_state() if cur_state is not None]
-        if(self.compress):
-            for cur_state in state:
-                if(cur_state is not None and cur_state.state is not None):
-                    cur_state.state["settings_log"] = statecompression.decompress_settings(cur_state.state["settings_log"])
-                    cur_state.state["results_log"] = statecompression.decompress_results(cur_state.state["results_log"])
-        return state
+        # an instance whose stored state cannot be read, or is not a session state, is skipped; the others are still restored
+        state = [self._decompressed(cur_state) for cur_state in self._load_state()]
+        return [cur_state for cur_state in state if cur_state is not None]
 
     def load_instance(self, instance_uuid: str) -> InstanceState:
-        state = self._load_instance(instance_uuid)
-        if(self.compress and state is not None and state.state is not None):
-            state.state["settings_log"] = statecompression.decompress_settings(state.state["settings_log"])
-            state.state["results_log"] = statecompression.decompress_results(state.state["results_log"])
-        return state
+        return self._decompressed(self._load_instance(instance_uuid))
 
+    def _decompressed(self, state: InstanceState) -> InstanceState:
+        """The stored state with its logs decompressed; None if it is missing or damaged (parses, but is not a session state)."""
+        if state is None:
+            return None
+        try:
+            if(self.compress and state.state is not None):
+                state.state["settings_log"] = statecompression.decompress_settings(state.state["settings_log"])
+                state.state["results_log"] = statecompression.decompress_results(state.state["results_log"])
+            return state
+        except Exception as e:
+            print("Error: " + str(e))
+            return None
 
     @abstractmethod
     def _save_state(self, state: list[InstanceState]):
